@@ -32,6 +32,15 @@ static void Dispatch(const json& req) {
   else if (!HandleMisc(kind, req)) EmitResult({{"error", "unknown kind " + kind}});
 }
 
+// resident set of the request's child in MiB (0 when it cannot be read)
+static long ChildRssMb(pid_t pid) {
+  char path[64]; snprintf(path, sizeof path, "/proc/%d/statm", (int)pid);
+  FILE* f = fopen(path, "r"); if (!f) return 0;
+  long size = 0, rss = 0; int n = fscanf(f, "%ld %ld", &size, &rss); fclose(f);
+  if (n != 2) return 0;
+  return rss * (sysconf(_SC_PAGESIZE) / 1024) / 1024;
+}
+
 static int64_t NowMs() { timeval tv; gettimeofday(&tv, nullptr); return (int64_t)tv.tv_sec * 1000 + tv.tv_usec / 1000; }
 
 int main(int argc, char** argv) {
@@ -49,6 +58,7 @@ int main(int argc, char** argv) {
       printf("E {\"died\": null, \"stderr\": \"bad request json\"}\n"); fflush(stdout); continue;
     }
     int timeout_ms = req.value("timeout_ms", 20000);
+    long rss_limit_mb = req.value("rss_limit_mb", getenv("VERIF_PROBE_RSS_MB") ? atol(getenv("VERIF_PROBE_RSS_MB")) : 6144L);
     int pfd[2];
     if (pipe(pfd) < 0) { perror("pipe"); return 1; }
     if (ftruncate(errfd, 0) < 0) {}
@@ -69,26 +79,31 @@ int main(int argc, char** argv) {
     close(pfd[1]);
     // relay child output to stdout until EOF or timeout
     int64_t deadline = NowMs() + timeout_ms;
-    bool timed_out = false;
+    bool timed_out = false, rss_exceeded = false;
     char buf[1 << 16];
     for (;;) {
       int64_t left = deadline - NowMs();
       if (left <= 0) { timed_out = true; break; }
       pollfd p = {pfd[0], POLLIN, 0};
-      int r = poll(&p, 1, (int)left);
+      int r = poll(&p, 1, (int)(left < 250 ? left : 250));
       if (r < 0) { if (errno == EINTR) continue; break; }
-      if (r == 0) { timed_out = true; break; }
+      if (r == 0) {
+        // memory guard: a request that needs more than the limit is stopped and reported, it must not take the machine down
+        if (ChildRssMb(pid) > rss_limit_mb) { rss_exceeded = true; break; }
+        continue;
+      }
       ssize_t n = read(pfd[0], buf, sizeof buf);
       if (n <= 0) break;
       fwrite(buf, 1, (size_t)n, stdout);
     }
     close(pfd[0]);
-    if (timed_out) { kill(-pid, SIGKILL); kill(pid, SIGKILL); }
+    if (timed_out || rss_exceeded) { kill(-pid, SIGKILL); kill(pid, SIGKILL); }
     int st = 0;
     waitpid(pid, &st, 0);
     kill(-pid, SIGKILL);  // stray grandchildren, if any
     json end = {{"died", nullptr}};
     if (timed_out) end["died"] = {{"timeout", true}};
+    else if (rss_exceeded) end["died"] = {{"rss_limit_mb", rss_limit_mb}};
     else if (WIFSIGNALED(st)) end["died"] = {{"signal", WTERMSIG(st)}};
     else if (WIFEXITED(st) && WEXITSTATUS(st) != 0) end["died"] = {{"exit", WEXITSTATUS(st)}};
     // stderr of the child
